@@ -3,6 +3,7 @@ C15 — relative links written by iwe resolve back to the note they were written
 Property theorems only; helper lemmas live in `IweModel/Lemmas/Path.lean`.
 -/
 import IweModel.Lemmas.Path
+import IweModel.Model.Hints
 
 namespace Iwe.Path
 
@@ -28,6 +29,20 @@ theorem resolve_relative (K D : List Str) (hK : NormalPath K) (hD : NormalPath D
     fromRelLinkUrl (toRelLinkUrl (renderNames K) (renderNames D)) (renderNames D)
       = renderNames K := by
   exact resolve_relative_core K D hK hD hmd
+
+/-- **completion items**: the link offered for note `K` to a note in directory `D` (`Key::to_completion`: the
+title as text, `to_rel_link_url` as destination) resolves from `D` back to exactly `K`, for every key, every
+directory and every library state — the offered link depends on the asking note only through its directory -/
+theorem completion_link_resolves (g : Graph) (K D : List Str) (hK : NormalPath K) (hD : NormalPath D)
+    (hmd : endsMd (renderNames K) = false) :
+    (Completion.item g (String.ofList (renderNames D)) (String.ofList (renderNames K))).insertText
+        = "[" ++ (g.title (String.ofList (renderNames K))).getD "" ++ "]("
+            ++ keyToRel (String.ofList (renderNames K)) (String.ofList (renderNames D)) ++ ")"
+    ∧ keyFromRel (keyToRel (String.ofList (renderNames K)) (String.ofList (renderNames D)))
+        (String.ofList (renderNames D)) = String.ofList (renderNames K) := by
+  refine ⟨rfl, ?_⟩
+  simp only [keyFromRel, keyToRel, String.toList_ofList]
+  rw [resolve_relative K D hK hD hmd]
 
 /-- The configured extension does not matter: the link with `.md` appended resolves to the same key. -/
 theorem resolve_relative_md (K D : List Str) (hK : NormalPath K) (hD : NormalPath D)
